@@ -70,6 +70,7 @@ struct LcmModel {
     pid_t pid = fork();
     if (pid == 0) {
       crash_ctx().out = nullptr;   // a crash here is this experiment's outcome, reported by the parent
+      child_watchdog();
       int code = 0;
       try { f(); } catch (...) { code = 1; }
       if (!san_report().empty()) code = 1;
